@@ -194,4 +194,33 @@ func genC17(r *Rng, tier string, emit func(Case)) {
 		e("fmt", "u", i64s(a), itoa(u))
 		e("mulf", "rand", i64s(a), fb([]float64{0.5, 1.5, 0.01, 1e-8, f, -2.5, 1 / 3.0}[r.Intn(7)]))
 	}
+	// "round" amounts m * 10^j (whole coins, whole cents, ... - where a shortcut for amounts without a fraction would
+	// apply) in every named unit and as String()
+	for j := 0; j <= 15; j++ {
+		p := int64(1)
+		for k := 0; k < j; k++ {
+			p *= 10
+		}
+		for _, m := range []int64{1, 15, 25, 99, 101, -1, -15, 21} {
+			a := m * p
+			if a > 2100000000000000 || a < -2100000000000000 {
+				continue
+			}
+			for _, u := range units {
+				e("fmt", "round", i64s(a), itoa(u))
+				e("tounit", "round", i64s(a), itoa(u))
+			}
+		}
+	}
+	// MulF64 with whole multipliers of every magnitude (and their neighbours), small amounts so that the product is
+	// far from the int64 range
+	for _, w := range []float64{0, 1, 2, 3, 255, 256, 65535, 65536, 1<<31 - 1, 1 << 31, 1<<31 + 1, 3e9, 1<<32 - 1, 1 << 32, 1<<32 + 1, 1 << 53, 1e15} {
+		for _, a := range []int64{0, 1, 3, -7, 100000000} {
+			for _, f := range []float64{w, -w, w + 0.5, w - 0.25} {
+				if math.Abs(float64(a)*f) < 4e18 {
+					e("mulf", "whole", i64s(a), fb(f))
+				}
+			}
+		}
+	}
 }
